@@ -654,7 +654,8 @@ PROPS["C01"] = dict(
                "position; hence c01_ap_accepts_iff_tokenfree), c01_ap_number_from_str (Number::from_str accepts exactly the RFC 8259 "
                "number literals), c01_ap_token_object (at any depth, after a first key equal to the token the run succeeds iff the "
                "rest of the object is ws : ws string ws } with the string decoding to a number literal, and continues with that NUMBER "
-               "in place of the object), c01_ap_token_language (a document that is such an object is accepted iff it has that shape; "
+               "in place of the object; c01_ap_conservative_cst / c01_ap_complete_tokenfree: the same from the syntax tree - a JSON "
+               "text none of whose objects has a first key decoding to the token has no hit in the scan), c01_ap_token_language (a document that is such an object is accepted iff it has that shape; "
                "its value is the number), c01_ap_token_value_not_string / _not_number / _extra_member / _eof (the specific errors: "
                "serde's invalid type; Number::from_str's error with its own line and column; trailing comma / characters; EOF), "
                "c01_ap_accepts_iff_partial.",
@@ -944,7 +945,7 @@ PROPS["C15"] = dict(
 )
 
 PROPS["C04"] = dict(
-    lean_targets=["SJ.Props.C04", "SJ.Audit.C04"],
+    lean_targets=["SJ.Props.C04", "SJ.Props.C04Ap", "SJ.Audit.C04"],
     configs=dict(quick=["d", "fr", "ap"], thorough=["d", "fr", "po", "ap", "rv"]),
     gen_keys=["ser.", "de.", "error."],
     rule="rtv: Values — a fixed corpus (boundary integers 0, +-1, +-2^53(+-1), i64::MIN/MAX, u64::MAX, powers of ten; every control "
@@ -982,12 +983,14 @@ PROPS["C04"] = dict(
                  "code outside /repo; Model.TypedSer.progOf transcribes the calls they make (serialize_struct / serialize_field / "
                  "serialize_*_variant / collect_seq / collect_map ...), and the harness op rtm (harness/src/c04m.rs: Dyn) makes exactly "
                  "these calls against the real serializer for generated (schema, value) pairs"],
-    partial=["arbitrary_precision: c04_value_ap / c04_reparse_ap are theorems about Model.Machine; the crate (and the faithful model "
-             "Model.MachineAp, which op rtv now runs: 0 disagreements) does not return a Value object whose first key in serialisation "
-             "order is $serde_json::private::Number — open finding C04-ap-private-number-token, stated on the model by "
-             "c01_ap_token_language / c01_ap_token_object; on every other Value the two models agree (c01_ap_conservative on the "
-             "printed text); raw_value: the RawValue token is not modelled (open finding C04-rv-private-rawvalue-token, its "
-             "signature covers the model disagreements)",
+    partial=["arbitrary_precision: c04_value_ap / c04_reparse_ap are theorems about Model.Machine; for the faithful model "
+             "Model.MachineAp (the machine + the private Number token reading; op rtv runs it: 0 disagreements) the theorem is "
+             "c04_ap_value (Props/C04Ap.lean): every well-formed Value in which no object has $serde_json::private::Number as its "
+             "first key in iteration order (Spec.PrivateToken.valueTokenFree) round-trips, compact and pretty, every source. The "
+             "excluded Values do not round-trip on the crate - open finding C04-ap-private-number-token - and not on the model "
+             "either: c04_ap_token_not_identity ({token:\"1\"} comes back as the number 1, {token:\"x\"} is rejected). "
+             "raw_value: the RawValue token is not modelled (open finding C04-rv-private-rawvalue-token, its signature covers the "
+             "model disagreements)",
              "typed clause: c04_typed_partial — for every schema of the fragment agreeFragT (bool, twelve integer widths incl. every "
              "128-bit value, char, String, byte buffers, unit / unit struct, Option, newtype, Vec, tuples, maps with every key kind, "
              "structs, enums with unit / newtype / non-empty tuple / struct variants) and every well-formed typed value (wfTV: inhabits "
